@@ -258,7 +258,10 @@ STACK_ROLES = {
     "return_address_stack": ("LIFO", ("push", "pop", "len", "is_empty")),
     "go_sub_address_stack": ("LIFO", ("push", "pop", "len", "is_empty")),
     "var_path_stack": ("LIFO", ("push_back", "pop_back", "back", "back_mut", "len", "is_empty")),
-    "by_ref_stack": ("FIFO", ("push_back", "pop_front", "len", "is_empty")),
+    # either discipline, used consistently; C03.R3 ties it to the order in which the generator stashes
+    "by_ref_stack": ("FIFO or LIFO", (("push_back", "pop_front", "len", "is_empty"),
+                                      ("push_back", "pop_back", "len", "is_empty"))),
+    "function_result": ("LIFO", ("push", "pop", "len", "is_empty")),
     "stacktrace": ("front-stack", ("insert", "remove", "is_empty", "len", "append", "pop", "clone")),
 }
 
@@ -289,6 +292,10 @@ def r_stack_discipline(ctx, rule):
     for name, (role, allowed) in sorted(STACK_ROLES.items()):
         if not uses[name]:
             raise CheckError("no user of VM container %s found" % name)
+        if allowed and isinstance(allowed[0], tuple):
+            # several admissible disciplines: the uses must fit one of them entirely
+            fits = [a for a in allowed if all(m in a for m in uses[name])]
+            allowed = fits[0] if fits else allowed[0]
         bad = {m: w for m, w in uses[name].items() if m not in allowed}
         ctx.decide(not bad, rule, "%s:%s" % (rule, name), "rusty_basic/src/interpreter",
                    "%s: %s" % (role, sorted(uses[name])),
